@@ -49,6 +49,8 @@ type c09Spec struct {
 	Deps    []c09Spec         `json:"deps"`
 	BufYAML string            `json:"buf_yaml"`
 	BufLock string            `json:"buf_lock"`
+	// B4: the module key pins the legacy digest, which covers the v1 buf.yaml / buf.lock side files
+	B4 bool `json:"b4,omitempty"`
 }
 
 func (s c09Spec) filesBytes() map[string][]byte {
@@ -74,6 +76,16 @@ func c09Key(s c09Spec) bufmodule.ModuleKey {
 	}
 	id := uuid.MustParse(s.Commit)
 	digestString := s.b5()
+	if s.B4 {
+		var y, l []byte
+		if s.BufYAML != "" {
+			y = []byte(s.BufYAML)
+		}
+		if s.BufLock != "" {
+			l = []byte(s.BufLock)
+		}
+		digestString = model.B4(s.filesBytes(), y, l)
+	}
 	key, err := bufmodule.NewModuleKey(fn, id, func() (bufmodule.Digest, error) { return bufmodule.ParseDigest(digestString) })
 	if err != nil {
 		panic(err)
@@ -131,6 +143,7 @@ func c09Spec_(seed uint64, mi int) c09Spec {
 	if mi%2 == 1 {
 		s.BufYAML = "version: v1\nname: " + s.Name + "\n"
 		s.BufLock = "version: v1\ndeps: []\n"
+		s.B4 = mi%4 == 1
 	}
 	if mi%3 != 0 {
 		dep := c09Spec{Name: fmt.Sprintf("buf.test/acme/dep%d", mi), Commit: uuid.NewSHA1(uuid.NameSpaceOID, []byte(fmt.Sprintf("c09dep-%d", mi))).String(),
@@ -145,6 +158,10 @@ func c09Spec_(seed uint64, mi int) c09Spec {
 	}
 	return s
 }
+
+// c09SideFilesTampered is set by the tamper part (one case at a time per worker process) while it reads an entry
+// whose key pins a b5 digest: the side files are outside that digest, so their content is not judged then.
+var c09SideFilesTampered bool
 
 var c09Logger = slog.New(slog.NewTextHandler(io.Discard, nil))
 
@@ -277,7 +294,40 @@ func c09VerifyData(c *core.C, md bufmodule.ModuleData, s c09Spec, key string) c0
 			c.Violation("served-wrong-content", key, "digest equal but file "+p+" differs", nil)
 		}
 	}
+	// and so do the v1 side files, which a b5 digest does not cover
+	for _, side := range []struct {
+		name string
+		want string
+		get  func() (bufmodule.ObjectData, error)
+	}{{"buf.yaml", s.BufYAML, md.V1Beta1OrV1BufYAMLObjectData}, {"buf.lock", s.BufLock, md.V1Beta1OrV1BufLockObjectData}} {
+		od, err := side.get()
+		if err != nil {
+			var dm *bufmodule.DigestMismatchError
+			if errors.As(err, &dm) {
+				return c09Outcome{"mismatch", err.Error()}
+			}
+			return c09Outcome{"error", err.Error()}
+		}
+		got := ""
+		if od != nil {
+			got = string(od.Data())
+		}
+		if got != side.want && c09SideFilesTampered {
+			c.Count("tampered_side_file_of_b5_entry_served", 1)
+			continue
+		}
+		if got != side.want {
+			c.Violation("served-wrong-content", key+" side="+side.name, fmt.Sprintf("the entry is served without its v1 %s: stored %q, served %q", side.name, side.want, got), nil)
+			return c09Outcome{"found-wrong", ""}
+		}
+		if side.want != "" {
+			c.Count("side_files_verified", 1)
+		}
+	}
 	c.Count("reads_found_correct", 1)
+	if s.B4 {
+		c.Count("reads_found_correct_b4", 1)
+	}
 	return c09Outcome{"found", ""}
 }
 
@@ -665,7 +715,10 @@ func c09Tamper(c *core.C, mi int, tar bool) {
 				continue
 			}
 			key := fmt.Sprintf("module=%d tar=%v tamper=%s file=%s", mi, tar, t.name, rel[strings.Index(rel, "/m")+1:])
+			// a b5 digest does not cover the v1 side files: tampering with them cannot be noticed through it
+			c09SideFilesTampered = !s.B4
 			o := c09Read(c, cache, tar, s, key)
+			c09SideFilesTampered = false
 			c.Count("tamper_runs", 1)
 			c.Distinct("tampers", t.name+"@"+c09FileClass(rel))
 			c.Distinct("post_tamper_outcomes", t.name+"@"+c09FileClass(rel)+"→"+o.Kind)
@@ -974,7 +1027,7 @@ func init() {
 		Run:         c09Run,
 		RaceCases:   func(tier string) int { return c09HistCases(tier) },
 		RunRace:     func(c *core.C, idx int) { c09Hist(c, idx, true) },
-		Required:    []string{"crash_runs", "kills_delivered", "faults_fired", "tamper_runs", "tamper_mismatch_required", "repairs_checked", "reads_found_correct", "reads_notfound", "reads_mismatch", "hist_histories", "lostrace_runs", "provider_values_checked", "provider_errors", "provider_lies_detected"},
+		Required:    []string{"crash_runs", "kills_delivered", "faults_fired", "tamper_runs", "tamper_mismatch_required", "repairs_checked", "reads_found_correct", "reads_found_correct_b4", "side_files_verified", "reads_notfound", "reads_mismatch", "hist_histories", "lostrace_runs", "provider_values_checked", "provider_errors", "provider_lies_detected"},
 		WatchdogSec: map[string]int{"quick": 1500, "thorough": 3 * 3600},
 	})
 }
